@@ -74,6 +74,29 @@ class Exec(Interp):
             return VOpq("pl." + name.split(".")[-1], src(n))
         if name.startswith("math."):
             return VNum("int" if name.endswith(("ceil", "floor")) else "float", src(n))
+        if name in ("re.compile", "re.escape") and args and not kw:
+            c = [constof(a) for a in args]
+            if all(x is not NOC for x in c) and isinstance(c[0], str):
+                import re as _re
+                try:
+                    return VConst(_re.compile(*c)) if name == "re.compile" else pyconst(_re.escape(c[0]))
+                except Exception:
+                    pass
+        if name in ("re.fullmatch", "re.match", "re.search", "re.findall", "re.sub", "re.split") and len(args) >= 2 and not kw:
+            c = [constof(a) for a in args]
+            if all(x is not NOC for x in c) and all(isinstance(x, (str, int)) for x in c):
+                import re as _re
+                try:
+                    return pyconst(getattr(_re, name[3:])(*c))
+                except Exception:
+                    pass
+        if name in ("itertools.chain", "itertools.chain.from_iterable") and not kw:
+            if name.endswith("from_iterable"):
+                if len(args) == 1 and isinstance(args[0], VTuple):
+                    args = list(args[0].items)
+                else:
+                    return VOpq("?ext:" + name, src(n))
+            return self.concat_segments([("many", a, n) for a in args], n)
         if name.startswith("struct.unpack"):
             return VSeqObj(VNum("int", src(n)))
         return VOpq("?ext:" + name, src(n))
@@ -371,10 +394,44 @@ class Exec(Interp):
                 return VSeqObj(VStr(Txt("raw", src(n))), src(n))
             if m == "hex":
                 return VStr(Txt("hex", src(n)))
+        if isinstance(recv, VConst) and type(recv.v).__name__ == "Pattern" and not kw and \
+                m in ("fullmatch", "match", "search", "findall", "sub", "split"):
+            # a compiled regular expression applied to constants: evaluated with the standard library's re
+            c = [constof(a) for a in args]
+            if c and all(x is not NOC for x in c) and all(isinstance(x, (str, int)) for x in c):
+                try:
+                    return pyconst(getattr(recv.v, m)(*c))
+                except Exception:
+                    pass
+            return VOpq("?regex:" + m, src(n))
+        if isinstance(recv, VConst) and type(recv.v).__name__ == "Match" and m in ("group", "groups", "start", "end", "span"):
+            c = [constof(a) for a in args]
+            if all(x is not NOC for x in c):
+                try:
+                    return pyconst(getattr(recv.v, m)(*c))
+                except Exception:
+                    pass
         if m == "hex" and not isinstance(recv, (VObj, VCls)):
             return VStr(Txt("hex", src(n)))
         if isinstance(recv, (VList, VTuple, VSeqObj)) and m in ("append", "extend", "insert"):
             arg = args[-1] if args else VOpq("?")
+            if m == "insert":
+                pos = constof(args[0]) if len(args) == 2 else NOC
+                why = src(n.args[-1]) if n.args else ""
+                if isinstance(recv, VTuple) and isinstance(pos, int) and not isinstance(pos, bool) and not isinstance(arg, VList):
+                    items = list(recv.items)
+                    items.insert(pos, arg)
+                    self.bind(f.value, VTuple(items, True), env)
+                    return VConst(None)
+                if isinstance(pos, int) and pos == 0 and not isinstance(recv, VSeqObj):
+                    self.bind(f.value, VList(seq(self.to_shape(arg, why), EB(), self.list_shape(recv, why))), env)
+                    return VConst(None)
+                if isinstance(recv, VSeqObj):
+                    self.bind(f.value, VSeqObj(self.join_val(recv.elem, arg), recv.key), env)
+                    return VConst(None)
+                self.gap("list", "insert at a non-constant position", src(n))
+                self.bind(f.value, VList(Unk("list.insert at a position that is not a constant: " + src(n))), env)
+                return VConst(None)
             return self.mutate_list(f.value, recv, m, arg, env, src(n.args[-1]) if n.args else "")
         if isinstance(recv, VTuple) and m in ("add", "update", "discard"):
             if m == "add" and args:
@@ -494,8 +551,6 @@ class Exec(Interp):
         return VOpq("?mcall:" + m, src(n))
 
     def mutate_list(self, target_node, recv, m, arg, env, why):
-        if m == "insert":
-            self.gap("list", "insert", why)
         is_objarg = isinstance(arg, (VObj, VDict, VFun)) or (isinstance(arg, VOpq) and not arg.typ.replace(" ", "").startswith(("str", "list[str]", "Sequence[str]", "MutableSequence[str]")))
         if m == "append" and is_objarg:
             if isinstance(recv, VSeqObj):
@@ -560,7 +615,10 @@ class Exec(Interp):
         if init is not None:
             self.call_func(init, obj, args, kw, n)
             return obj
-        if self.pm.is_pydantic(cls) or "dataclass" in " ".join(self.pm.classes[cls].node.decorator_list and [src(d) for d in self.pm.classes[cls].node.decorator_list] or []):
+        record_like = any(b.split(".")[-1] in ("NamedTuple", "TypedDict") for b in self.pm.mro(cls))
+        if record_like and any(isinstance(a, VOpq) and a.typ == "?starargs" for a in args):
+            return VOpq(cls, src(n))
+        if record_like or self.pm.is_pydantic(cls) or "dataclass" in " ".join(self.pm.classes[cls].node.decorator_list and [src(d) for d in self.pm.classes[cls].node.decorator_list] or []):
             flds = list(self.pm.all_fields(cls))
             for i, a in enumerate(args):
                 if i < len(flds):
